@@ -178,6 +178,8 @@ def maketrans_from(tree):
     out = []
     for n in ast.walk(tree):
         if isinstance(n, ast.Call) and isinstance(n.func, ast.Attribute) and n.func.attr == "maketrans" and len(n.args) == 2:
+            if isinstance(n.args[1], ast.Constant):
+                continue          # a constant-to-constant table (the a-f -> 0-5 pass of the PVV, say) is not the IBM 3624 alphabet
             try:
                 out.append(cps(const_str(n.args[0])))
             except TableError:
